@@ -16,5 +16,5 @@ func main() {
 			k.Thunk = 25
 		}
 		return k
-	}, CompareLog: true, MutationOnly: true, Repeat: 20}, 400, 40000)
+	}, CompareLog: true, MutationOnly: true, Repeat: 20, PlanModel: true}, 400, 40000)
 }
